@@ -15,7 +15,7 @@ From RU Require Import Base.Prelude Base.Utf8 Base.Utf8Facts Model.AsciiSet Gen.
   Proofs.C01_EqClasses Proofs.C01_EqAuthSpec Proofs.C01_EqAuthModel Proofs.C01_EqAuth Proofs.C01_EqAuthHost
   Proofs.C01_EqClasses2 Proofs.C01_EqRel Proofs.C01_EqRelPath Proofs.C01_EqRelArms Proofs.C01_EqRelBase
   Proofs.C01_EqSpSpec Proofs.C01_EqSpPath Proofs.C01_EqSpModel Proofs.C01_EqSp Proofs.C01_EqSpHost
-  Proofs.C01_EqAbs Proofs.C01_EqSpBase Proofs.C01_Override.
+  Proofs.C01_EqAbs Proofs.C01_EqSpBase Proofs.C01_EqSpBare Proofs.C01_Override.
 
 (* ================= the base relation and the outcome relation ================= *)
 (* a model record and a record of the Standard that may serve as a base: `related` (wf_b, same ten API
@@ -101,7 +101,7 @@ Definition in_class_abs_base (sb : spec_url) (input : list N) : bool :=
 Definition in_class_relative_s (sb : spec_url) (input : list N) : bool :=
   in_class_rel_abs_s sb input || in_class_rel_path_s sb input
   || (scheme_canon (su_scheme sb) && in_class_rel_authority_s sb input)
-  || in_class_same_abs_s sb input || in_class_same_path_s sb input.
+  || in_class_same_abs_s sb input || in_class_same_path_s sb input || in_class_same_bare sb input.
 
 Definition in_proved_class3 (sbase : option spec_url) (input : list N) : bool :=
   match sbase with
@@ -370,7 +370,8 @@ Proof.
            cbn [orb] in Hc. unfold in_class_relative_s in Hc. apply orb_true_iff in Hc.
            destruct Hc as [Hc|Hc];
              [apply orb_true_iff in Hc; destruct Hc as [Hc|Hc];
-              [apply orb_true_iff in Hc; destruct Hc as [Hc|Hc]; [apply orb_true_iff in Hc; destruct Hc as [Hc|Hc]|]|]|].
+              [apply orb_true_iff in Hc; destruct Hc as [Hc|Hc];
+               [apply orb_true_iff in Hc; destruct Hc as [Hc|Hc]; [apply orb_true_iff in Hc; destruct Hc as [Hc|Hc]|]|]|]|].
            ++ destruct (class_rel_abs_s dbg hp hpo hd shp shs input b sb Hu R Hcan Hc) as (su & -> & Hbo & A).
               split; [exact Hbo | exact A].
            ++ destruct (class_rel_path_s dbg hp hpo hd shp shs input b sb Hu R Hok Hc) as (su & -> & Hbo & A).
@@ -384,6 +385,8 @@ Proof.
               split; [exact Hbo | exact A].
            ++ destruct (class_same_path_s dbg hp hpo hd shp shs input b sb Hu R Hok Hc) as (su & -> & Hbo & A).
               split; [exact Hbo | exact A].
+           ++ destruct (class_same_bare dbg hp hpo hd shp shs input b sb Hu R Hc) as (R0 & -> & A).
+              split; [rewrite bare_result_base_ok; exact Hok | exact A].
   - (* no base *)
     exact (partial_nobase_good3 None input Hu (or_introl eq_refl) Hc HH).
 Qed.
